@@ -2455,6 +2455,10 @@ func (data *Data) newShardGroup(rpi *RetentionPolicyInfo, timestamp time.Time, e
 		// Shard group range is [start, end) so add one to the max time.
 		sgi.EndTime = time.Unix(0, models.MaxNanoTime+1)
 	}
+	if sgi.StartTime.Before(time.Unix(0, models.MinNanoTime)) {
+		// an earlier instant cannot be expressed in nanoseconds since the epoch (it would not survive Marshal)
+		sgi.StartTime = time.Unix(0, models.MinNanoTime).UTC()
+	}
 	return &sgi
 }
 
@@ -2516,6 +2520,9 @@ func (data *Data) CreateIndexGroup(rpi *RetentionPolicyInfo, timestamp time.Time
 	igi.EndTime = igi.StartTime.Add(rpi.IndexGroupDuration).UTC()
 	if igi.EndTime.After(time.Unix(0, models.MaxNanoTime)) {
 		igi.EndTime = time.Unix(0, models.MaxNanoTime+1)
+	}
+	if igi.StartTime.Before(time.Unix(0, models.MinNanoTime)) {
+		igi.StartTime = time.Unix(0, models.MinNanoTime).UTC()
 	}
 	igi.EngineType = engineType
 	igi.Indexes = make([]IndexInfo, ptNum)
